@@ -529,6 +529,13 @@ class WriterThread(threading.Thread):
             "Deleted event %s kind=%d pubkey=%s", event.id, event.kind, event.pubkey
         )
 
+    @staticmethod
+    def _d_value(event: Event):
+        for tag in event.tags:
+            if tag[0] == "d":
+                return tag[1] if len(tag) > 1 else ""
+        return ""
+
     def _post_save(self, txn, event: Event, counter, log):
         if (
             event.kind
@@ -542,10 +549,8 @@ class WriterThread(threading.Thread):
             saved_id = event.id_bytes
             event.created_at - 1
             if event.is_paramaterized_replaceable:
-                try:
-                    d_tag = [tag[1] for tag in event.tags if tag[0] == "d"][0]
-                except IndexError:
-                    d_tag = None
+                # nip-33: a missing or bare "d" tag counts as the empty string
+                d_tag = self._d_value(event)
             else:
                 d_tag = None
 
@@ -560,7 +565,7 @@ class WriterThread(threading.Thread):
                         continue
                     candidate = decode_event(get_event_data(txn, event_id))
                     if d_tag is not None:
-                        if not all(candidate.has_tag("d", d_tag)):
+                        if self._d_value(candidate) != d_tag:
                             continue
                     self._delete_event(txn, candidate, log)
                     counter["count"] += 1
